@@ -162,3 +162,19 @@ for _p in ("C03", "C04", "C11"):
     PLANS[_p]["jobs"] = multi(PLANS[_p]["jobs"], huge_jobs)
 
 PLANS["C02"]["jobs"] = multi(PLANS["C02"]["jobs"], seq_plan((1500, 0), (60000, 0)))
+
+
+# processes that START with GOMAXPROCS=1 (code that sizes or specialises itself from the
+# number of CPUs at package initialisation takes its single-processor paths; the harness
+# still raises GOMAXPROCS for the concurrent phases, so the goroutines do run in parallel)
+def uniproc_jobs(engine, quick_n, thorough_n, stripes=2):
+    def jobs(tier, cores):
+        n = quick_n if tier == "quick" else thorough_n
+        return striped(engine, n, 0, stripes, env={"GOMAXPROCS": "1"})
+    return jobs
+
+
+PLANS["C05"]["jobs"] = multi(PLANS["C05"]["jobs"], uniproc_jobs("atomic", 1500, 30000))
+PLANS["C03"]["jobs"] = multi(PLANS["C03"]["jobs"], uniproc_jobs("linzmap", 500, 10000))
+PLANS["C04"]["jobs"] = multi(PLANS["C04"]["jobs"], uniproc_jobs("linzmap", 500, 10000))
+PLANS["C02"]["jobs"] = multi(PLANS["C02"]["jobs"], uniproc_jobs("linzcache", 400, 8000))
